@@ -392,8 +392,23 @@ def eqWith (shortcut : Bool) (locks : List LockRef) (cmpIdx : Nat × Nat)
 def typedEq : St → Nat → Nat → E (Out × St) :=
   eqWith Gen.ListLocks.typedEqShortcut Gen.ListLocks.typedEqLocks Gen.ListLocks.typedEqCompare rawEqTyped
 
-def erasedEq : St → Nat → Nat → E (Out × St) :=
-  eqWith Gen.ListLocks.erasedEqShortcut Gen.ListLocks.erasedEqLocks Gen.ListLocks.erasedEqCompare rawEqErased
+/-- `ErasedList::eq`. Where the source orders its two `lock()` calls by the
+    address of the mutexes, the model takes the allocation index as the address;
+    the theorems cover both orders for every pair of lists. -/
+def erasedEq (s : St) (x y : Nat) : E (Out × St) :=
+  if x < y then
+    eqWith Gen.ListLocks.erasedEqShortcut Gen.ListLocks.erasedEqLocksLt Gen.ListLocks.erasedEqCompareLt
+      rawEqErased s x y
+  else
+    eqWith Gen.ListLocks.erasedEqShortcut Gen.ListLocks.erasedEqLocksGe Gen.ListLocks.erasedEqCompareGe
+      rawEqErased s x y
+
+/-- the statements `ErasedList::concat` executes for operands `x`, `y`
+    (same list / distinct with either address order) -/
+def concatStepsFor (x y : Nat) : List CStep :=
+  if x = y then Gen.ListLocks.concatStepsSame
+  else if x < y then Gen.ListLocks.concatStepsLt
+  else Gen.ListLocks.concatStepsGe
 
 /-- `List<T>::eq` as it was written on the pinned tree: both `lock()` calls on `self` -/
 def typedEqAsPinned : St → Nat → Nat → E (Out × St) :=
@@ -454,7 +469,7 @@ def stepE (sz : Nat) (s : St) : Op → E (Out × St)
     | .error f, _ => .error f
     | _, .error f => .error f
     | .ok x, .ok y =>
-      match concatRun sz x y (s, none) Gen.ListLocks.concatSteps with
+      match concatRun sz x y (s, none) (concatStepsFor x y) with
       | .error f => .error f
       | .ok (_, none) => .error .ub
       | .ok (s1, some n) =>
